@@ -3,6 +3,8 @@ import json, os
 HERE = os.path.dirname(os.path.dirname(os.path.abspath(__file__)))
 TLA = "TLA+ spec + TLC model checking + trace validation of recorded executions"
 CHECKS = {
+ 'C01': dict(text="Athlon.tla states the score in exact integer arithmetic (centi-marks, age factors x 10^4, floor/ceil after the factor, band rule, hurdles remap, ESAA row) over exactly computed threshold sequences of floor(A*d^X); TLC proves the reference sane (monotone thresholds, exact inverse, monotone adjustment, band rule). The real athlon_score is executed on every mark of the 0.01 grid for every row (float and int forms), on strided grids for every masters band, on every age 1-125 for sampled marks, with the ESAA option and on unknown pairs; outcomes are run-length encoded and TLC checks the reference at both ends of every run (with monotonicity: every grid point).",
+             note="Trusted: the 40-line exact-integer threshold generator and the pinned coefficient snapshot (refdata/), TLC. Reference exact up to the 1600-point mark; scored events without WMA factor + age are a lenient region.", tech="exact-integer TLA+ reference + TLC theorems + TLC validation of run-length-encoded full-grid sweeps", ref='5/C01', engine='tlc-fn'),
  'C02': dict(text="TLC explores HighJump.tla exhaustively (2 athletes, every legal and illegal call in every state, plus constructed 3-4 athlete jump-off models) and proves the mechanism model satisfies the rule-level acceptance predicate, refusal-is-stutter and state progress; one witness log per sampled model state, TLC simulations and seeded scripts are replayed on the real object with the whole call alphabet probed at every visited state, and TLC validates every recorded step against the same predicates (monitor) and the mechanism (drift).",
              note="Bounds: exhaustive for 2 athletes / 3 heights and for constructed ties of 3-4 athletes with 1-2 jump-off heights; sampled up to 4 athletes, 4+3 heights. Trusted: TLC, CPython, the rule-level predicates of HighJump.tla. Lenient regions listed in DESIGN.md.", tech=TLA, ref='5/C02', engine='tlc-hj'),
  'C03': dict(text="TLC checks the placing clauses (countback, jump-off survivor, standard competition ranking, best = max cleared) on every terminal state of the well-formed sub-model (exhaustive for 2 athletes, constructed ties for 3-4) and on every terminal state observed on the real object in replayed/simulated/scripted competitions.",
@@ -13,6 +15,8 @@ CHECKS = {
              note="Reduced digit alphabet {0,5,9} / {0,1,5,9} for the exhaustive part; durations logged exactly via fractions.Fraction. Trusted: TLC, the ~20-line text tokenizer of the harness.", tech="exact-integer TLA+ reference relations + TLC domain enumeration + TLC validation of recorded observations", ref='5/C06', engine='tlc-fn'),
  'C08': dict(text="TLC checks log replay and card round trip as invariants of the model, and order independence by exploring every interleaving of every planned round (MC_HJRound); on the real object from_actions(), from_matrix(to_matrix()) and all (small) or many (large) interleavings are executed and TLC compares the observed snapshots.",
              note="Same trusted base as C02. Known finding KF-HJ2 (pass in a jump-off column) attributed by a TLA+ predicate.", tech="TLA+ spec + TLC exhaustive interleaving exploration + trace validation of recorded executions", ref='5/C08', engine='tlc-hj'),
+ 'C09': dict(text="NeededFail in Athlon.tla is the two-sided inverse relation; TLC proves that the exact threshold satisfies it and is the unique grid mark that does. For every row and every target -10..1500 the real athlon_performance_needed is called, the library's own score of the returned value and of the next-worse grid mark is recorded, and TLC judges every triple; the distance to the exact threshold is reported as drift only.",
+             note="The relation is stated against the library's own score (as the property says); C01 binds that score to the formula.", tech="TLA+ relation + TLC theorem (uniqueness) + TLC validation of recorded triples, exhaustive over the target range", ref='5/C09', engine='tlc-fn'),
  'C13': dict(text="TLC proves the reference functions AgeGroups!TF / XC (completed-years ages on 31 Aug, 31 Dec and the day, civil-date arithmetic in integers) total, monotone in the birth date and option-independent; the real calc_uka_age_group is swept over competition dates of a full leap cycle x birth-date windows around every anniversary for ages 0-110 (thorough: the complete 110-year birth axis), five option / input-form columns, recorded run-length encoded; TLC evaluates the rule text at every birth date of every run and the structural clauses on all dates.",
              note="Rule-text equality asserted for TF 1 Jan-30 Sep, XC/ROAD 1 Oct-30 Aug; one leap cycle 2021-2024. Trusted: TLC, datetime.date ordinals.", tech="exact-integer TLA+ reference function + TLC theorems on the reference + TLC validation of run-length-encoded sweeps", ref='5/C13', engine='tlc-fn'),
  'C16': dict(text="TLC explores three PlusCal sub-models at source-line granularity (lazily built table, per-call scratch on a shared grader, bounded cache at its limit) for 3 threads and every interleaving: the variants transcribing the code as it is now satisfy Linearizable / NoError, the as-it-was variants are refuted in the same run. The real functions are executed under a deterministic sys.settrace line scheduler, every schedule with <= 1 (quick) / 2 (thorough) forced pre-emptions at AST-detected visible lines, each execution in its own forked process (real first calls); TLC validates every recorded execution (result = single-threaded result per thread; published tables never partial).",
